@@ -14,6 +14,8 @@ EXTENDS Universe
 ArrayCtorOK(via, ds, vshape) ==
     IF vshape = <<-1>>                       \* a plain number
     THEN (via = "ctor" => ds = <<>>)
+    ELSE IF vshape = <<-2>>                  \* not a value array but a FlodymArray object over ds: only x[...] = y takes arrays
+    THEN via = "ellipsis"
     ELSE vshape = Shape(ds)
 
 \* x[...] = y / x[{}] = y / x.set_values(y.values) where y's dimensions carry the SAME LETTERS as x's but one of them is
@@ -32,4 +34,7 @@ DsmLifetimeOK(ds, tl, lmdims) == StockCtorOK(ds, tl, FALSE, <<>>) /\ lmdims = ds
 \* LifetimeModel(dims=ds, <prm>=FlodymArray over pd): parameters are cast by label, so they
 \* must not have a dimension the model lacks
 LifetimePrmOK(ds, pd) == Range(pd) \subseteq Range(ds)
+\* ... and a parameter whose dimension `foreignLetter` carries the model's LETTER but is another Dimension with a different
+\* number of items cannot be matched by label: refused (constructor and set_prms alike), an earlier parameter stays
+ForeignPrmOK(ds, pd, foreignLetter) == LifetimePrmOK(ds, pd) /\ foreignLetter \notin Range(pd)
 =============================================================================
